@@ -366,3 +366,81 @@ Proof.
               ltac:(simpl; tauto) ltac:(simpl; tauto)) as [I _].
   unfold insU. change (p_tick (s_pool (r_base rs'))) with (cur_tick rs'). rewrite I, NR. lia.
 Qed.
+
+(* ---------- a position that was just created has zero records in all uptime accumulators ---------- *)
+Lemma upd_uptime_accs_new_rec : forall ups ins outs id liquidity delta ups', upd_uptime_accs ups ins outs id liquidity delta = Some ups' ->
+  forall u, (u < length ups)%nat -> acc_get (nth u ups acc_empty) id = None ->
+  acc_get (nth u ups' acc_empty) id = Some (mkARec liquidity (nth u ins dc0) dc0).
+Proof.
+  induction ups as [|a ups IH]; intros ins outs id liquidity delta ups' H u Hu N; destruct ins as [|i ins]; destruct outs as [|o outs]; simpl in H; try discriminate H.
+  - simpl in Hu. lia.
+  - match type of H with (do a' <- ?X; _) = _ => destruct X as [a'|] eqn:EA; [|discriminate H] end. cbv beta iota in H.
+    destruct (upd_uptime_accs ups ins outs id liquidity delta) as [rest'|] eqn:ER; [|discriminate H]. inversion H; subst.
+    destruct u as [|u]; cbn [nth] in *; [|apply (IH _ _ _ _ _ _ ER u ltac:(simpl in Hu; lia) N)].
+    unfold acc_has in EA. rewrite N in EA. cbn [negb] in EA. destruct (negb (0 <? delta)); [discriminate EA|].
+    destruct (new_position_rec _ _ _ _ _ EA) as [_ [_ [_ RA]]]. exact RA.
+Qed.
+
+Lemma upd_uptime_accs_value : forall ups ins outs id liquidity delta ups', upd_uptime_accs ups ins outs id liquidity delta = Some ups' ->
+  forall v, ac_value (nth v ups' acc_empty) = ac_value (nth v ups acc_empty).
+Proof.
+  induction ups as [|a ups IH]; intros ins outs id liquidity delta ups' E v; destruct ins as [|i ins]; destruct outs as [|o outs]; simpl in E; try discriminate E.
+  - inversion E; subst. reflexivity.
+  - match type of E with (do a' <- ?X; _) = _ => destruct X as [a'|] eqn:EA; [|discriminate E] end. cbv beta iota in E.
+    destruct (upd_uptime_accs ups ins outs id liquidity delta) as [rest'|] eqn:ER; [|discriminate E]. inversion E; subst.
+    destruct v as [|v]; cbn [nth]; [|apply (IH _ _ _ _ _ _ ER v)].
+    destruct (negb (acc_has a id)).
+    + destruct (negb (0 <? delta)); [discriminate EA|]. apply (acc_new_position_value _ _ _ _ _ EA).
+    + destruct (to_init_plus_outside a id o) as [a1|] eqn:E1; [|discriminate EA]. cbv beta iota in EA.
+      rewrite (acc_update_position_value _ _ _ _ _ EA). apply (to_init_plus_outside_value _ _ _ _ E1).
+Qed.
+
+Theorem create_zero_urec : forall rs owner a0 a1 m0 m1 lo hi rs' c, PII rs ->
+  r_create rs owner a0 a1 m0 m1 lo hi = Some (rs', c) -> zero_urec rs' (cr_id c) (cr_lower c) (cr_upper c).
+Proof.
+  intros rs owner a0 a1 m0 m1 lo hi rs' c [RI [HIW FR]] H.
+  pose proof (rinv_create _ _ _ _ _ _ _ _ _ _ H RI) as RI'. pose proof RI as [I _].
+  pose proof (r_create_base _ _ _ _ _ _ _ _ _ _ H) as B.
+  destruct (create_position_spec _ _ _ _ _ _ _ _ _ _ I B) as [I' [NX [CI [SP [_ [LP _]]]]]].
+  set (id := cr_id c) in *.
+  set (newp := mkPos (s_next_id (r_base rs)) owner (cr_lower c) (cr_upper c) (cr_liq c) (s_time (r_base rs))) in *.
+  assert (EW : update_position_rewards (r_rw rs) (cur_tick rs') (p_liq (s_pool (r_base rs))) (s_time (r_base rs))
+                 (cr_lower c) (cr_upper c) id (cr_liq c) (cr_liq c) = Some (r_rw rs')).
+  { unfold r_create in H. destruct (create_position _ _ _ _ _ _ _ _) as [[s2 c2]|]; [|discriminate H]. simpl in H.
+    match type of H with (do w <- ?X; _) = _ => destruct X as [w|] eqn:E; [|discriminate H] end. inversion H; subst. simpl. exact E. }
+  set (cur := cur_tick rs') in *. set (pl := p_liq (s_pool (r_base rs))) in *.
+  unfold update_position_rewards in EW.
+  destruct (ensure_tick (r_rw rs) cur pl _ (cr_lower c)) as [w1|] eqn:E1; [|discriminate EW]. simpl in EW.
+  destruct (ensure_tick w1 cur pl _ (cr_upper c)) as [w2|] eqn:E2; [|discriminate EW]. simpl in EW.
+  destruct (init_or_update_uptime w2 cur pl _ (cr_lower c) (cr_upper c) id (cr_liq c) (cr_liq c)) as [w3|] eqn:E3; [|discriminate EW]. simpl in EW.
+  unfold init_or_update_uptime in E3.
+  destruct (update_uptime w2 pl (s_time (r_base rs))) as [w2a|] eqn:EU; [|discriminate E3]. cbv beta iota in E3.
+  destruct (uptime_growth_inside w2a cur (cr_lower c) (cr_upper c)) as [ins|] eqn:EI; [|discriminate E3]. cbv beta iota in E3.
+  destruct (uptime_growth_outside w2a cur (cr_lower c) (cr_upper c)) as [outs|] eqn:EO; [|discriminate E3]. cbv beta iota in E3.
+  destruct (upd_uptime_accs (rw_up w2a) ins outs id (cr_liq c) (cr_liq c)) as [ups|] eqn:EUp; [|discriminate E3]. inversion E3; subst w3. clear E3.
+  assert (NIN : In newp (s_pos (r_base rs'))) by (rewrite SP; eapply pos_get_in; rewrite pos_get_set; simpl; rewrite Z.eqb_refl; reflexivity).
+  destruct (PI_PT rs' RI' newp NIN) as [Hlu _]. simpl in Hlu.
+  destruct HIW as [_ [_ [LN _]]].
+  assert (LN2a : length (rw_up w2a) = NU).
+  { rewrite (update_uptime_length _ _ _ _ EU).
+    assert (L2 : length (rw_up w2) = length (rw_up w1)).
+    { unfold ensure_tick in E2. destruct (tt_get (rw_tt w1) (cr_upper c)); [inversion E2; reflexivity|].
+      destruct (update_uptime w1 pl _) as [wx|] eqn:EX; [|discriminate E2]. inversion E2; subst. simpl. apply (update_uptime_length _ _ _ _ EX). }
+    assert (L1 : length (rw_up w1) = length (rw_up (r_rw rs))).
+    { unfold ensure_tick in E1. destruct (tt_get (rw_tt (r_rw rs)) (cr_lower c)); [inversion E1; reflexivity|].
+      destruct (update_uptime (r_rw rs) pl _) as [wx|] eqn:EX; [|discriminate E1]. inversion E1; subst. simpl. apply (update_uptime_length _ _ _ _ EX). }
+    congruence. }
+  assert (NR : forall u, acc_get (acc_u u w2a) id = None).
+  { intro u. rewrite (update_uptime_urecs _ _ _ _ EU), (ensure_tick_urecs _ _ _ _ _ _ E2), (ensure_tick_urecs _ _ _ _ _ _ E1). apply FR. rewrite CI. lia. }
+  pose proof (init_or_update_spread_tt _ _ _ _ _ _ _ EW) as TT5. pose proof (init_or_update_spread_up _ _ _ _ _ _ _ EW) as UP5.
+  set (w3 := set_up w2a ups) in *.
+  assert (HV : forall v, ac_value (nth v ups acc_empty) = ac_value (nth v (rw_up w2a) acc_empty)) by (intro v; apply (upd_uptime_accs_value _ _ _ _ _ _ _ EUp v)).
+  intros u r Hu R.
+  assert (R3 : acc_get (acc_u u w3) id = Some (mkARec (cr_liq c) (nth u ins dc0) dc0)).
+  { unfold acc_u, w3. simpl. apply (upd_uptime_accs_new_rec _ _ _ _ _ _ _ EUp u ltac:(lia)). apply NR. }
+  unfold acc_u in R. rewrite UP5 in R. fold (acc_u u w3) in R. rewrite R3 in R. inversion R; subst r. cbn [ar_unclaimed ar_snap].
+  split; [reflexivity|]. intro d. change (cur_tick rs') with cur.
+  rewrite (uptime_growth_inside_view u d w2a cur _ _ ins Hlu ltac:(lia) EI).
+  transitivity (insU u d w3 cur (cr_lower c) (cr_upper c)); [symmetry; apply (insU_set_up u d w2a ups cur _ _ HV)|].
+  unfold insU. rewrite (view_same (CU u d) w3 (r_rw rs') cur dc0 TT5); [reflexivity|]. unfold sel_G. rewrite UP5. reflexivity.
+Qed.
